@@ -5,23 +5,7 @@ import os
 
 BASE = "cd /repo && PYTHON_JSONPATH_VERIF= /venv/bin/python -m pytest -ra -q -p no:cacheprovider --timeout=900 --continue-on-collection-errors"
 
-# property id -> (engine, technique, level text, level note, design ref)
-CHECKS = {
-    "C01": (
-        "E-PROD",
-        "bounded-exhaustive enumeration of query ASTs x spellings x documents executed on the real engine against an RFC 9535 reference evaluator",
-        "Four complete levels: (A) every single-segment query, child and descendant, over the full selector alphabet (names, indices -5..5 and +-(2^53-1), the full 9x9x6 slice table incl. step 0, wildcard) on every document of Univ(1,3) (thorough: Univ(2,2), 13k documents) plus scalars/strings/index-like keys; (B) every 2- (3-) selector list over a 12-selector alphabet; (C) every 2- (3-) segment pipeline of child/descendant segments on the 1522 documents of Univ(2,2); (D) every spelling (dot/bracket, both quote styles, minimal/\\uXXXX/surrogate-pair escapes, <=1 (2) blanks of each kind at every ABNF S position) of all names over a 25-character alphabet up to length 2 and of the B and C(k=2) ASTs. Results through compile().findall, finditer and env.findall must equal the reference nodelist (typed, ordered, duplicates kept). Exhaustive within these bounds.",
-        "Trusted: mc/ref/rpath.py (RFC 9535 2.3/2.5 written out, self-tested on the RFC example tables and against Python slicing each run); mc/gen/spell.py renders only spellings the RFC ABNF allows. Not covered: nesting deeper than 2-3, integers beyond 2^53, names longer than 3 characters.",
-        "DESIGN.md section 5 C01",
-    ),
-    "C12": (
-        "E-HIST",
-        "explicit-state exploration of all Query operation histories up to a depth bound on real Query objects, lock-step against a list model",
-        "Every history of Query operations (all letters incl. aliases, every count from -1 to len+1, on every live query created by take/tee) up to depth 3 (quick) / 4, and 5 without aliases (thorough), for every match-sequence length 0..4/5, is executed on fresh real Query objects; every step's observation and the final drain of every live query must equal the list-slicing model. Exhaustive within those bounds; chains longer than the bound are not covered.",
-        "Trusted: mc/ref/rquery.py (self-tested each run); match sequences come from jsonpath.query('$[*]', list); views are drained completely when called.",
-        "DESIGN.md section 5 C12",
-    ),
-}
+CHECKS = {k: (v["engine"], v["technique"], v["text"], v["note"], v["ref"]) for k, v in json.load(open(os.path.join(os.path.dirname(os.path.abspath(__file__)), "checks.json"))).items()}
 
 PENDING_REASON = "check not built yet in this session (work in progress; see DESIGN.md section 5 for the planned bounded-exhaustive check)"
 
